@@ -183,6 +183,9 @@ def run_history(root: Path, hist: dict, after_session: Callable | None = None,
     meta_objects: dict[str, dict] = {}
 
     for k, session in enumerate(hist["sessions"]):
+        if hist.get("reseed") is not None:
+            # an application that seeds the global RNG before every run (reproducible shuffling)
+            random.seed(hist["reseed"])
         if session.get("reopen"):
             dataset = Dataset(root)
         rec = SessionRec(index=k, kind=session["kind"], subdir=session.get("subdir"), completed=False)
@@ -323,7 +326,15 @@ def gen_history(rng: random.Random, *, max_sessions: int = 5, formats=None, with
         else:
             sessions.append({"kind": "root", "reopen": rng.random() < 0.4,
                              "writes": gen_session_writes(rng, eps, splits)})
-    return {"fmt": fmt, "comp": comp, "eps": eps, "sessions": sessions}
+    hist = {"fmt": fmt, "comp": comp, "eps": eps, "sessions": sessions}
+    roll = rng.random()
+    if roll < 0.15:
+        hist["hashes"] = []                 # no checksum algorithm configured
+    elif roll < 0.25:
+        hist["hashes"] = ["xxh64", "md5"]
+    if rng.random() < 0.15:
+        hist["reseed"] = rng.randrange(1000)
+    return hist
 
 
 def history_shape(hist: dict) -> list:
